@@ -5,6 +5,7 @@ from . import lpcommon as lc
 from .. import spec as sp
 
 ID = 'C03'
+ANCHOR_FILES = ['solver/lp_solver.py', 'solver/model.py', 'solver/options_parser.py']
 LEVEL = 'exploration'
 RULE = ('one criterion per run, cycling through the nine criteria x {plain,-pc,-stab,both} x admissible argument vectors '
         '(defaults by omission) on random small specs; the value is measured by the reference model from the printed '
